@@ -38,11 +38,15 @@ def log(msg):
 
 # ---------------------------------------------------------------- build steps
 
-def build_tools():
-    """go build extract + harness against /repo's working tree (hooks on)."""
+REGISTRY = os.path.join(VERIF, "tools", "harness", "zz_registry_gen.go")
+
+
+def build_tools(names=("extract",)):
+    """go build extract / harness against /repo's working tree (hooks on). The harness is built after the
+    translator ran, because the translator regenerates the harness's nasType registry."""
     tools = os.path.join(VERIF, "tools")
     shutil.copyfile(os.path.join(REPO, "go.sum"), os.path.join(tools, "go.sum"))
-    for name in ("extract", "harness"):
+    for name in names:
         out = os.path.join(BUILD, name)
         if name == "harness" and os.path.exists(out):
             os.remove(out)  # never reuse a stale binary: it links the repo
@@ -61,7 +65,11 @@ def run_extract():
         stash[f] = open(p).read()
         os.remove(p)
     os.makedirs(FACTS, exist_ok=True)
-    rc, o = sh([os.path.join(BUILD, "extract"), "-repo", REPO, "-out", GEN, "-facts", FACTS], timeout=600)
+    if os.path.exists(REGISTRY):
+        os.remove(REGISTRY)
+    rc, o = sh([os.path.join(BUILD, "extract"), "-repo", REPO, "-out", GEN, "-facts", FACTS, "-registry", REGISTRY], timeout=600)
+    if not os.path.exists(REGISTRY):
+        open(REGISTRY, "w").write("package main\n")
     # keep mtimes stable for unchanged content so lake does not rebuild needlessly (lake hashes content anyway)
     unrec = {}
     try:
